@@ -597,6 +597,8 @@ def r11_preevaluated_data_shape(repo: Repo, rep):
 
 
 def run(repo: Repo, rep):
+    from .c14 import r3_periodic  # a periodic condition evaluates each side's data functions on that side's coordinates
+    r3_periodic(repo, rep)
     r9_function_set_flag(repo, rep)
     r11_preevaluated_data_shape(repo, rep)
     r10_periodic_sides(repo, rep)
